@@ -1,10 +1,33 @@
 #!/bin/bash
-# apply every kept seeded change to /repo in turn, run its property's quick check, undo; print a table
-cd "$(dirname "$0")/.."
-for d in seeded/*/; do
-  n=$(basename $d); p=${n%%-*}
-  git -C /repo apply "$PWD/$d/patch.diff" || { echo "$n: patch does not apply"; continue; }
-  out=$(./check $p --tier quick 2>/dev/null); rc=$?
-  git -C /repo checkout -q -- .
-  echo "$n rc=$rc $(echo "$out" | grep -E '^FAIL' | head -1 | cut -c1-120)"
-done
+# usage: eval_all_seeds.sh [workers=4] [seed-name-glob='*']
+# Development aid (not a registered command): applies every kept seeded change in turn to a scratch
+# worktree of /repo, builds a scratch copy of the harness against it, runs the quick check that meta.json
+# names as the detecting one (first property id in "detected_by") and prints one line per seed.
+# Neither /repo nor /verif/harness nor /verif/evidence is touched; everything lives under /tmp/evalseeds
+# and is removed at the end. VERIF_SEED is honoured (default 0).
+W=${1:-4}; GLOB=${2:-*}; SEED=${VERIF_SEED:-0}
+V="$(cd "$(dirname "$0")/.." && pwd)"; S=/tmp/evalseeds
+rm -rf $S; mkdir -p $S; git -C /repo worktree prune
+ls -d $V/seeded/$GLOB/ | sort > $S/list
+worker() {
+  k=$1
+  git -C /repo worktree add -q --detach $S/repo-$k HEAD || exit 9
+  rsync -a --exclude target $V/harness/ $S/h-$k/
+  sed -i "s#path = \"/repo\"#path = \"$S/repo-$k\"#" $S/h-$k/Cargo.toml
+  printf '[net]\noffline = true\n[build]\ntarget-dir = "%s/target-%s"\n' $S $k > $S/h-$k/.cargo/config.toml
+  mkdir -p $S/root-$k; cp -r $V/known_findings.json $V/replays $S/root-$k/
+  i=0
+  while read d; do
+    i=$((i+1)); [ $(( (i-1) % W )) -eq $((k-1)) ] || continue
+    n=$(basename $d); p=${n%%-*}
+    c=$(python3 -c "import json,re; m=json.load(open('$d/meta.json')); r=re.search(r'C\d\d', m['detected_by']); print(r.group(0) if r else '$p')")
+    git -C $S/repo-$k checkout -q -- . ; git -C $S/repo-$k apply "$d/patch.diff" || { echo "$n: patch does not apply"; continue; }
+    (cd $S/h-$k && cargo build --offline --profile verif --quiet 2>/dev/null) || { echo "$n: harness does not build"; continue; }
+    out=$($S/target-$k/verif/pbt run $c --tier quick --seed $SEED --root $S/root-$k 2>/dev/null); rc=$?
+    echo "$n check=$c rc=$rc $(echo "$out" | grep -E '^FAIL' | head -1 | cut -c1-120)"
+  done < $S/list
+  git -C /repo worktree remove --force $S/repo-$k
+}
+for k in $(seq $W); do worker $k & done
+wait
+git -C /repo worktree prune; rm -rf $S
